@@ -85,6 +85,11 @@ def make_replay(prop, v):
                verifier_output=[dict(msg=e['msg'], line=e['line'], file=e.get('file')) for e in v['errors']],
                confirmed_on_real_code=False)
     ring = v.get('ring')
+    if v.get('symx') is not None or v['unit'].startswith('symx'):
+        rep['candidate_input'] = v.get('symx')
+        rep['note'] = ("symbolic execution of the real body gives an output polynomial that differs from the specified map; the candidate input is a point "
+                       "where the two evaluate differently (not re-run on the compiled crate: IsogenyMap is crate-private)")
+        return rep
     if v.get('kani'):
         k = v['kani']
         rep['counterexample'] = k
